@@ -1,14 +1,24 @@
 import RoaringModel.Lemmas.MiscLsb0
 import RoaringModel.Lemmas.MiscWF
+import RoaringModel.Lemmas.MiscLsb0Aligned
+import RoaringModel.Lemmas.Canonical
+import RoaringModel.Lemmas.BitmapMut2
+import RoaringModel.Lemmas.SpecFacts
 /-!
 # C17 — `from_lsb0_bytes` imports exactly the set bits, canonically (property theorems)
 
-Proved here: the unaligned path (`shift_bytes` + carry + recursion with the aligned offset) at the bit
-level, in SPEC terms; the chunk-split arithmetic (no `split_at` / `assert!` / subtraction can fail, the
-pieces add up to the slice); the documented `expect` panic; the popcount threshold (`<= 4096` ⇒ array,
-canonical cached cardinality for bitsets).  The final membership statement of DESIGN §8 C17 is proved
-*relative to* the aligned kernel `AlignedSpec` (per-chunk extraction: word-wise drain, little-endian
-copy, assembling the chunks), which is stated but not yet proved — see `C17_partial`.
+Unconditional: `C17` (no panic, shared `Bitmap.WF`, membership `off + 8i + j`), `C17_short`, `C17_elems`,
+`C17_canonical` / `C17_eq_native` (the result is structurally THE well-formed bitmap of the SPEC set, e.g. equal
+to `from_iter` of it), `C17_panics_iff` (the exact panic domain).  The pieces: the unaligned path (`shift_bytes` +
+carry + recursion with the aligned offset) at the bit level; the chunk-split arithmetic; the popcount threshold
+(`<= 4096` ⇒ array, canonical cached cardinality for bitsets); per-chunk extraction (word-wise drain,
+little-endian byte→word copy: Lemmas/MiscLsb0Store.lean) and the chunk assembly (Lemmas/MiscLsb0Aligned.lean),
+which discharge the aligned kernel `AlignedSpec` (`C17_alignedSpec`).
+
+**Finding.**  The DESIGN §8 statement (domain `off + 8·len ≤ 2^32`) is false at the boundary: an aligned slice of
+exactly `2^29` bytes overflows `len_bytes.checked_mul(8)` (`u32`) and panics although it ends exactly at `2^32`
+(`C17_full_slice_panics`, `C17_design_domain_refuted`).  The theorems carry the corrected domain (the slice handed
+to the aligned body is shorter than `2^29` bytes).
 -/
 namespace Roaring.C17
 open Roaring Roaring.Lsb0 Roaring.MiscLemmas
@@ -126,31 +136,225 @@ theorem C17_threshold (dbg : Bool) (bytes : List Nat) (bo : Nat) (st : Option St
 example : storeFromLsb0 true [255, 1] 0 = some (some (.array [0, 1, 2, 3, 4, 5, 6, 7, 8])) ∧ bitsSet [255, 1] = 9 := by
   decide +kernel
 
-/-- The aligned kernel: for a multiple-of-8 offset inside the domain the call succeeds with a well-formed
-    bitmap whose elements are exactly the SPEC set (per-chunk word drain / little-endian copy, chunk
-    assembly).  Stated, not yet proved. -/
+/-- The slice the aligned body works on: the bytes themselves for a multiple-of-8 offset, the output of
+    `shift_bytes` (with its carry byte) otherwise. -/
+def alignedSlice (off : Nat) (bytes : List Nat) : List Nat :=
+  if off % 8 = 0 then bytes else shiftBytes bytes (off % 8)
+
+theorem C17_eq_aligned (dbg : Bool) (off : Nat) (bytes : List Nat) :
+    fromLsb0 dbg off bytes = fromLsb0Aligned dbg (off - off % 8) (alignedSlice off bytes) := by
+  unfold fromLsb0 alignedSlice
+  by_cases h : off % 8 = 0
+  · simp [h]
+  · simp [h]
+
+/-- **Finding (the DESIGN §8 C17 statement is false at one boundary point).**  `len_bytes.checked_mul(8)` is
+    evaluated in `u32` *before* the `- 1` that makes the end bit inclusive, so a slice of exactly `2^29` bytes at
+    offset 0 — which ends exactly at `2^32`, inside the documented domain — overflows and hits the `expect`
+    (`offset + bytes.len() must be <= 2^32`).  More generally every aligned slice of at least `2^29` bytes panics. -/
+theorem C17_full_slice_panics (dbg : Bool) (off : Nat) (bytes : List Nat) (hal : off % 8 = 0)
+    (h : 536870912 ≤ bytes.length) : fromLsb0 dbg off bytes = none := by
+  have he : bytes.isEmpty = false := by
+    cases bytes with
+    | nil => simp at h
+    | cons _ _ => rfl
+  simp only [fromLsb0, hal, ne_eq, not_true_eq_false, if_false, fromLsb0Aligned, he, Bool.false_eq_true, u32Max]
+  split
+  · rfl
+  · split
+    · rfl
+    · omega
+
+/-- The same through the unaligned path: when the shifted slice (carry byte included) has `2^29` bytes the
+    recursive call panics although `off + 8·len ≤ 2^32` (e.g. `off = 1`, `2^29 - 1` bytes, top bit of the last
+    byte set). -/
+theorem C17_full_slice_panics_unaligned (dbg : Bool) (off : Nat) (bytes : List Nat) (hal : off % 8 ≠ 0)
+    (h : 536870912 ≤ (shiftBytes bytes (off % 8)).length) : fromLsb0 dbg off bytes = none := by
+  have h1 : fromLsb0 dbg off bytes = fromLsb0 dbg (off - off % 8) (shiftBytes bytes (off % 8)) := by
+    have h0 : (off - off % 8) % 8 = 0 := by omega
+    simp [fromLsb0, hal, h0]
+  rw [h1]
+  exact C17_full_slice_panics dbg _ _ (by omega) h
+
+/-- The DESIGN domain `off + 8·len ≤ 2^32` is refuted as a no-panic condition: offset 0 with `2^29` zero bytes. -/
+theorem C17_design_domain_refuted (dbg : Bool) :
+    ¬ ∀ (off : Nat) (bytes : List Nat), (∀ b ∈ bytes, b < 256) → off + 8 * bytes.length ≤ 4294967296 →
+        ∃ b, fromLsb0 dbg off bytes = some b := by
+  intro hall
+  obtain ⟨b, hb⟩ := hall 0 (List.replicate 536870912 0)
+    (fun b hb => by rw [List.mem_replicate] at hb; omega) (by rw [List.length_replicate]; omega)
+  rw [C17_full_slice_panics dbg 0 _ (by omega) (by rw [List.length_replicate]; omega)] at hb
+  cases hb
+
+/-- The aligned kernel: for a multiple-of-8 offset and a slice inside the domain **and shorter than `2^29`
+    bytes** (see `C17_full_slice_panics`: without the last condition the statement is false) the call succeeds
+    with a well-formed bitmap whose elements are exactly the SPEC set (per-chunk word drain / little-endian
+    copy, chunk assembly).  Proved below: `C17_alignedSpec`. -/
 def AlignedSpec (dbg : Bool) : Prop :=
   ∀ (off : Nat) (bytes : List Nat), off % 8 = 0 → (∀ b ∈ bytes, b < 256) → off + 8 * bytes.length ≤ 4294967296 →
+    bytes.length < 536870912 →
     ∃ b, fromLsb0Aligned dbg off bytes = some b ∧ BitmapWF b ∧
       ∀ x, x ∈ Bitmap.elems b ↔ x ∈ Spec.bitsOfBytes off bytes
 
-/-- The statement of DESIGN §8 C17 (all offsets, aligned or not), proved from the aligned kernel:
-    `shift_bytes`, its carry and the recursion are covered here; the hypothesis `hA` (aligned offsets only)
-    is what is still missing for the unconditional theorem. -/
+/-- The aligned kernel holds (Lemmas/MiscLsb0Store.lean: per chunk; Lemmas/MiscLsb0Aligned.lean: assembly). -/
+theorem C17_alignedSpec (dbg : Bool) : AlignedSpec dbg := by
+  intro off bytes hal hb hfit hlen
+  obtain ⟨b, h1, h2, h3⟩ := fromLsb0Aligned_spec dbg off bytes hal hb hfit (by omega)
+  exact ⟨b, h1, (bitmapWF_iff b).2 h2, h3⟩
+
+/-- The statement of DESIGN §8 C17 (all offsets, aligned or not) from the aligned kernel: `shift_bytes`, its
+    carry and the recursion are covered here.  `hlen` (the slice handed to the aligned body is shorter than
+    `2^29` bytes) is the correction of the domain. -/
 theorem C17_partial (dbg : Bool) (hA : AlignedSpec dbg) (off : Nat) (bytes : List Nat)
-    (hb : ∀ b ∈ bytes, b < 256) (hfit : off + 8 * bytes.length ≤ 4294967296) :
+    (hb : ∀ b ∈ bytes, b < 256) (hfit : off + 8 * bytes.length ≤ 4294967296)
+    (hlen : (alignedSlice off bytes).length < 536870912) :
     ∃ b, fromLsb0 dbg off bytes = some b ∧ BitmapWF b ∧
       ∀ x, x ∈ Bitmap.elems b ↔
         ∃ i j byte, bytes[i]? = some byte ∧ j < 8 ∧ byte.testBit j = true ∧ x = off + 8 * i + j := by
   by_cases hal : off % 8 = 0
-  · obtain ⟨b, h1, h2, h3⟩ := hA off bytes hal hb hfit
+  · simp only [alignedSlice, hal, if_true] at hlen
+    obtain ⟨b, h1, h2, h3⟩ := hA off bytes hal hb hfit hlen
     refine ⟨b, by simp [fromLsb0, hal, h1], h2, fun x => ?_⟩
     rw [h3 x, mem_bitsOfBytes]
-  · obtain ⟨hr, ha, hf⟩ := C17_unaligned dbg off bytes hal hfit
+  · simp only [alignedSlice, hal, if_false] at hlen
+    obtain ⟨hr, ha, hf⟩ := C17_unaligned dbg off bytes hal hfit
     obtain ⟨hbs, hbits⟩ := C17_shift_bits off bytes hb hal
-    obtain ⟨b, h1, h2, h3⟩ := hA _ _ ha hbs hf
+    obtain ⟨b, h1, h2, h3⟩ := hA _ _ ha hbs hf hlen
     refine ⟨b, by rw [hr, h1], h2, fun x => ?_⟩
     rw [h3 x, hbits x, mem_bitsOfBytes]
+
+/-- **C17** (unconditional; exact domain).  For every offset and byte slice with `off + 8·len ≤ 2^32` whose
+    aligned slice is shorter than `2^29` bytes, `from_lsb0_bytes(offset, bytes)` does not panic (in either build
+    configuration), the result is well-formed (shared `Bitmap.WF`: keys strictly ascending, no empty chunk,
+    array iff at most 4096 values, correct cached cardinalities) and contains exactly the integers
+    `off + 8i + j` such that bit `j` (LSB first) of byte `i` is set. -/
+theorem C17 (dbg : Bool) (off : Nat) (bytes : List Nat)
+    (hb : ∀ b ∈ bytes, b < 256) (hfit : off + 8 * bytes.length ≤ 4294967296)
+    (hlen : (alignedSlice off bytes).length < 536870912) :
+    ∃ b, fromLsb0 dbg off bytes = some b ∧ Bitmap.WF b ∧
+      ∀ x, x ∈ Bitmap.elems b ↔
+        ∃ i j byte, bytes[i]? = some byte ∧ j < 8 ∧ byte.testBit j = true ∧ x = off + 8 * i + j := by
+  obtain ⟨b, h1, h2, h3⟩ := C17_partial dbg (C17_alignedSpec dbg) off bytes hb hfit hlen
+  exact ⟨b, h1, (bitmapWF_iff b).1 h2, h3⟩
+
+/-- C17 with a condition on the input alone: any slice shorter than `2^29 - 1` bytes (the carry byte of an
+    unaligned offset included) — i.e. everything except the last 8 bytes' worth of the 512 MiB full-domain slice. -/
+theorem C17_short (dbg : Bool) (off : Nat) (bytes : List Nat)
+    (hb : ∀ b ∈ bytes, b < 256) (hfit : off + 8 * bytes.length ≤ 4294967296)
+    (hlen : bytes.length + 1 < 536870912) :
+    ∃ b, fromLsb0 dbg off bytes = some b ∧ Bitmap.WF b ∧
+      ∀ x, x ∈ Bitmap.elems b ↔
+        ∃ i j byte, bytes[i]? = some byte ∧ j < 8 ∧ byte.testBit j = true ∧ x = off + 8 * i + j := by
+  refine C17 dbg off bytes hb hfit ?_
+  unfold alignedSlice
+  split
+  · omega
+  · have := (shiftLoop_length (off % 8) bytes 0).2
+    simp only [shiftBytes]; omega
+
+/-- C17 in SPEC terms: the elements of the result are the list `Spec.bitsOfBytes off bytes`. -/
+theorem C17_elems (dbg : Bool) (off : Nat) (bytes : List Nat)
+    (hb : ∀ b ∈ bytes, b < 256) (hfit : off + 8 * bytes.length ≤ 4294967296)
+    (hlen : (alignedSlice off bytes).length < 536870912) :
+    ∃ b, fromLsb0 dbg off bytes = some b ∧ Bitmap.WF b ∧
+      ∀ x, x ∈ Bitmap.elems b ↔ x ∈ Spec.bitsOfBytes off bytes := by
+  obtain ⟨b, h1, h2, h3⟩ := C17 dbg off bytes hb hfit hlen
+  exact ⟨b, h1, h2, fun x => by rw [h3 x, mem_bitsOfBytes]⟩
+
+/-- The panic domain, exactly: the call panics iff the aligned slice is non-empty and either has at least
+    `2^29` bytes (`checked_mul`) or extends past `2^32` (`checked_add`). -/
+theorem C17_panics_iff (dbg : Bool) (off : Nat) (bytes : List Nat) (hb : ∀ b ∈ bytes, b < 256) :
+    fromLsb0 dbg off bytes = none ↔
+      alignedSlice off bytes ≠ [] ∧ (536870912 ≤ (alignedSlice off bytes).length ∨
+        (off - off % 8) + 8 * (alignedSlice off bytes).length > 4294967296) := by
+  have hbs : ∀ b ∈ alignedSlice off bytes, b < 256 := by
+    unfold alignedSlice
+    split
+    · exact hb
+    · rename_i h
+      exact (C17_shift_bits off bytes hb h).1
+  have hal : (off - off % 8) % 8 = 0 := by omega
+  rw [C17_eq_aligned]
+  generalize alignedSlice off bytes = sl at hbs
+  constructor
+  · intro hnone
+    by_cases hne : sl = []
+    · subst hne; simp [fromLsb0Aligned] at hnone
+    · refine ⟨hne, ?_⟩
+      by_cases hc : 536870912 ≤ sl.length ∨ (off - off % 8) + 8 * sl.length > 4294967296
+      · exact hc
+      · obtain ⟨b, h1, _⟩ := fromLsb0Aligned_spec dbg (off - off % 8) sl hal hbs (by omega) (by omega)
+        rw [h1] at hnone; cases hnone
+  · rintro ⟨hne, hc⟩
+    have he : sl.isEmpty = false := by
+      cases sl with
+      | nil => contradiction
+      | cons _ _ => rfl
+    simp only [fromLsb0Aligned, he, Bool.false_eq_true, if_false, u32Max]
+    split
+    · rfl
+    · split
+      · rfl
+      · split
+        · rfl
+        · omega
+
+/-! ### canonical form: the result is *the* well-formed bitmap of the SPEC set -/
+
+theorem mem_spec_extend (vs : List Nat) : ∀ (s : List Nat) (x : Nat), x ∈ Spec.extend s vs ↔ x ∈ s ∨ x ∈ vs := by
+  unfold Spec.extend
+  induction vs with
+  | nil => intro s x; simp
+  | cons v vs ih =>
+    intro s x
+    simp only [List.foldl_cons]
+    rw [ih, Spec.mem_insert, List.mem_cons]
+    constructor
+    · rintro ((h | h) | h)
+      · exact Or.inr (Or.inl h)
+      · exact Or.inl h
+      · exact Or.inr (Or.inr h)
+    · rintro (h | h | h)
+      · exact Or.inl (Or.inr h)
+      · exact Or.inl (Or.inl h)
+      · exact Or.inr h
+
+/-- The result is structurally equal to ANY well-formed bitmap with the same elements (however it was built). -/
+theorem C17_canonical (dbg : Bool) (off : Nat) (bytes : List Nat)
+    (hb : ∀ b ∈ bytes, b < 256) (hfit : off + 8 * bytes.length ≤ 4294967296)
+    (hlen : (alignedSlice off bytes).length < 536870912)
+    (b' : Bitmap) (hwf : Bitmap.WF b') (hel : ∀ x, x ∈ Bitmap.elems b' ↔ x ∈ Spec.bitsOfBytes off bytes) :
+    fromLsb0 dbg off bytes = some b' := by
+  obtain ⟨b, h1, h2, h3⟩ := C17_elems dbg off bytes hb hfit hlen
+  rw [h1]
+  congr 1
+  apply Bitmap.canonical b b' h2 hwf
+  apply Arr.sorted_ext _ _ (Bitmap.sorted_elems b h2.dir) (Bitmap.sorted_elems b' hwf.dir)
+  intro x
+  rw [h3 x, hel x]
+
+/-- In particular it is structurally equal (same containers, same store kinds, same cached cardinalities) to the
+    bitmap built natively by inserting the SPEC elements one at a time. -/
+theorem C17_eq_native (dbg : Bool) (off : Nat) (bytes : List Nat)
+    (hb : ∀ b ∈ bytes, b < 256) (hfit : off + 8 * bytes.length ≤ 4294967296)
+    (hlen : (alignedSlice off bytes).length < 536870912) :
+    fromLsb0 dbg off bytes = some (Bitmap.fromIter (Spec.bitsOfBytes off bytes)) := by
+  have hlt : ∀ v ∈ Spec.bitsOfBytes off bytes, v < 4294967296 := by
+    intro v hv
+    rw [mem_bitsOfBytes] at hv
+    obtain ⟨i, j, byte, hi, hj, _, rfl⟩ := hv
+    have : i < bytes.length := by
+      by_cases h : i < bytes.length
+      · exact h
+      · have : bytes[i]? = none := by simp; omega
+        rw [this] at hi; cases hi
+    omega
+  have hnew : Bitmap.WF Bitmap.new := ⟨List.Pairwise.nil, by simp [Bitmap.new]⟩
+  obtain ⟨e1, e2⟩ := Bitmap.extend_spec Bitmap.new hnew (Spec.bitsOfBytes off bytes) hlt
+  apply C17_canonical dbg off bytes hb hfit hlen _ e1
+  intro x
+  rw [e2, mem_spec_extend]
+  simp [Bitmap.new, Bitmap.elems]
 
 /-- Non-vacuity of the kernel's conclusion at a concrete aligned point (two chunks: the slice straddles the
     edge at 65536), in both configurations. -/
